@@ -180,7 +180,13 @@ where
     fn format_response_data(&self, formatter: &mut dyn Formatter) -> Result<()> {
         let mnemonic = self.mnemonic();
         let short_form = mnemonic.split(|c| !c.is_ascii_uppercase()).next().unwrap();
-        formatter.push_str(short_form)
+        formatter.push_str(short_form)?;
+        // Keep the numeric suffix (`ASCii2` => `ASC2`), the short form alone selects another variant
+        let suffix = mnemonic
+            .iter()
+            .rposition(|c| !c.is_ascii_digit())
+            .map_or(mnemonic, |last| &mnemonic[last + 1..]);
+        formatter.push_str(suffix)
     }
 }
 
